@@ -38,10 +38,7 @@ JSON_INT = re.compile(r'-?(?:0|[1-9][0-9]*)\Z')
 
 def canon(a):
     """the part of a result line that the Lean model also produces"""
-    a = a.split(" # ", 1)[0]
-    if a.startswith("fin"):
-        return "fin" + ("" if " " not in a[4:] else " " + a[4:].split(" ", 1)[1])
-    return a
+    return a.split(" # ", 1)[0]
 
 
 def fields(a):
@@ -289,6 +286,66 @@ def rand_float_special_input(rng):
     return rng.choice(WS) + b'"' + w + rng.choice([b'"'] * 9 + [b""]) + rng.choice([b"", b" ", b",", b"x"])
 
 
+FLOAT_EDGES = [
+    b"0", b"-0", b"0.0", b"1", b"1.5", b"0.1", b"0.3", b"1e0", b"1E5", b"1e+5", b"1e-5", b"123456789012345678901234567890",
+    b"1.7976931348623157e308", b"1.7976931348623158e308", b"1.7976931348623159e308", b"1.797693134862315807e308", b"1e308", b"1e309",
+    b"2e308", b"4.9e-324", b"5e-324", b"2.4703282292062327e-324", b"2.4703282292062328e-324", b"2.47032822920623272e-324", b"2e-324", b"3e-324",
+    b"1e-400", b"2.2250738585072014e-308", b"2.2250738585072011e-308", b"2.225073858507201e-308", b"9007199254740993", b"9007199254740992",
+    b"9007199254740995", b"9007199254740993.0000000000000001", b"3.4028234663852886e38", b"3.4028235e38", b"3.4028236e38", b"3.40282356e38",
+    b"3.4028235677973366e38", b"3.4028235677973367e38", b"1.401298464324817e-45", b"1e-45", b"7e-46", b"7.006492321624085e-46",
+    b"7.006492321624086e-46", b"1.1754943508222875e-38", b"1.17549435e-38", b"16777217", b"16777216", b"16777219", b"0.000001", b"100000000000000000000",
+    b"1e23", b"8.41e21", b"2.2250738585072012e-308", b"1.00000005960464477539062500", b"1.000000059604644775390625", b"1.0000000596046447753906251",
+    b"1e5000", b"1e-5000", b"0e99999", b"1e99999", b"1e-99999", b"0.5e1", b".5", b"5.", b".", b"e5", b"1e", b"1e+", b"1.2.3", b"1ee5", b"+1", b"--1", b"-",
+    b"+", b"", b"1-", b"1e5-", b"00.5", b"01", b"1e05", b"1e-05",
+]
+
+
+def rand_float_text(rng):
+    k = rng.below(10)
+    if k < 2:
+        t = rng.choice(FLOAT_EDGES)
+    elif k < 6:
+        nd = rng.choice([1, 2, 5, 9, 10, 16, 17, 18, 20, 25, 40])
+        digits = "".join(str(rng.below(10)) for _ in range(rng.range(1, nd)))
+        pos = rng.below(len(digits) + 1)
+        t = (digits[:pos] + ("." if rng.chance(2, 3) else "") + digits[pos:]).encode()
+        if rng.chance(1, 2):
+            t += rng.choice([b"e", b"E"]) + rng.choice([b"", b"+", b"-"]) + str(rng.choice([rng.below(40), rng.below(400), rng.below(330)])).encode()
+    elif k < 8:
+        # a value next to a rounding boundary: the exact midpoint of two adjacent doubles/floats, and its neighbours in the last place
+        if rng.chance(1, 2):
+            b = rng.below((0x7FF << 52) - 1)
+            lo, hi = struct.unpack("<d", struct.pack("<Q", b))[0], struct.unpack("<d", struct.pack("<Q", b + 1))[0]
+        else:
+            b = rng.below((0xFF << 23) - 1)
+            lo, hi = struct.unpack("<f", struct.pack("<I", b))[0], struct.unpack("<f", struct.pack("<I", b + 1))[0]
+        from fractions import Fraction
+        mid = (Fraction(lo) + Fraction(hi)) / 2
+        if mid == 0:
+            t = b"0"
+        else:
+            # exact decimal expansion of the midpoint (finite: denominators are powers of two)
+            den = mid.denominator
+            sh = den.bit_length() - 1
+            num10 = mid.numerator * 5 ** sh
+            ds = str(num10)
+            if rng.chance(1, 3):
+                ds = str(num10 + rng.choice([-1, 1]))
+            elif rng.chance(1, 3):
+                ds = ds + rng.choice(["0", "1", "0000000001"])
+                sh += len(ds) - len(str(num10))
+            t = (ds + "e-" + str(sh)).encode()
+            if len(t) > 900:
+                t = FLOAT_EDGES[rng.below(20)]
+    else:
+        t = bytes(rng.choice(list(b"0123456789.eE+-")) for _ in range(rng.below(9)))
+    if rng.chance(1, 5):
+        t = rng.choice([b"-", b"+", b"-"]) + t
+    if rng.chance(1, 3):
+        return rng.choice(WS) + b'"' + t + b'"' + rng.choice([b"", b"x"])
+    return rng.choice(WS) + t + rng.choice([b"", b"", b" ", b",", b"}", b"]", b"\n", b"x"])
+
+
 # ------------------------------------------------------------------ the check
 def run_check(c):
     c.facts(["Jsonp"])
@@ -305,7 +362,8 @@ def run_check(c):
     impl = c.harness("hjsonp", overlays={"internal/verifh/hjsonp/helpers/a_tlgen_helpers_code.go": hp})
     rng = c.rng
     c.trusted += ["go/hjsonp harness (+ gengo template rendered through an overlaid accessor); factgen table extraction",
-                  "strconv.AppendFloat/ParseFloat for finite floats (not modelled; bit-exact round trip is checked on the implementation only)",
+                  "strconv.AppendFloat(…,'f',-1,…)/ParseFloat for finite floats: modelled as an exact-arithmetic specification "
+                  "(correct rounding; shortest digits that read back), tied differentially, their source is not analysed",
                   "modelled, not verified: Go slices/append, unicode/utf8, unicode/utf16, encoding/base64, strconv integer routines, "
                   "easyjson jlexer (each is tied differentially, its source is not analysed)"]
     replay_lines = []
@@ -371,15 +429,25 @@ def run_check(c):
                 expect[ln] = ("num", v, used)
             # the same text through every other width: accepted iff in range
             for other, ob, osig in (("ru32", 32, False), ("ri32", 32, True), ("ru64", 64, False), ("ri64", 64, True)):
-                ln = "jsonp.%s %s" % (other, hx(out))
-                lines2.append(ln)
                 lo, hi = (-(1 << (ob - 1)), (1 << (ob - 1)) - 1) if osig else (0, (1 << ob) - 1)
-                expect[ln] = ("num", v, len(out)) if lo <= v <= hi else ("rej",)
+                for form, used in ((out, len(out)), (b'"' + out + b'"', len(out) + 2)):
+                    ln = "jsonp.%s %s" % (other, hx(form))
+                    lines2.append(ln)
+                    expect[ln] = ("num", v, used) if lo <= v <= hi else ("rej",)
         elif f[0] in ("jsonp.wf32", "jsonp.wf64") and a.startswith("ok "):
             out = unhex(a.split(" ")[1])
-            ln = "jsonp.rf " + hx(out + rng.choice([b"", b" ", b","]))
-            lines2.append(ln)
-            expect[ln] = ("special", {b'"NaN"': "nan", b'"+Inf"': "+inf", b'"-Inf"': "-inf"}.get(out), len(out))
+            if out.startswith(b'"'):
+                ln = "jsonp.rf " + hx(out + rng.choice([b"", b" ", b","]))
+                lines2.append(ln)
+                expect[ln] = ("special", {b'"NaN"': "nan", b'"+Inf"': "+inf", b'"-Inf"': "-inf"}.get(out), len(out))
+            elif c.thorough or rng.chance(1, 3):
+                w = f[0][-2:]
+                for form, used in ((out + rng.choice([b"", b" ", b",", b"}", b"]"]), len(out)), (b'"' + out + b'"', len(out) + 2)):
+                    ln = "jsonp.rfn%s %s" % (w, hx(form))
+                    lines2.append(ln)
+                    expect[ln] = ("fbits", f[1], used)
+                if w == "32" and rng.chance(1, 4):      # the float32 text through the float64 reader and back is another value: tie only
+                    lines2.append("jsonp.rfn64 " + hx(out))
     n2 = 60000 if c.thorough else 9000
     for _ in range(n2):
         lines2.append("jsonp.rs " + hx(rand_string_reader_input(rng)))
@@ -388,6 +456,8 @@ def run_check(c):
             lines2.append("jsonp.%s %s" % (op, hx(rand_number_reader_input(rng, bits, signed))))
     for _ in range(n2 // 6):
         lines2.append("jsonp.rf " + hx(rand_float_special_input(rng)))
+    for _ in range(n2 // 3):
+        lines2.append("jsonp.rfn%s %s" % (rng.choice(["32", "64"]), hx(rand_float_text(rng))))
     lines2 = list(dict.fromkeys(lines2))
     rng.shuffle(lines2)
     res2 = c.tie("readers", lines2, impl, model)
@@ -403,6 +473,8 @@ def run_check(c):
             c.oracle_fail(l, "integer text written by the writer does not read back as %d (got %s)" % (e[1], a[:60]), l)
         elif e[0] == "rej" and a.startswith("ok"):
             c.oracle_fail(l, "out-of-range integer text accepted (got %s)" % a[:60], l)
+        elif e[0] == "fbits" and a != "ok %s %d" % (e[1], e[2]):
+            c.oracle_fail(l, "finite float text written by the writer does not read back bit-exactly (got %s)" % a[:60], l)
         elif e[0] == "special" and a != "ok %s %d" % (e[1], e[2]):
             c.oracle_fail(l, "special float string does not read back as %s (got %s)" % (e[1], a[:60]), l)
 
@@ -457,7 +529,7 @@ def oracle_writer(c, l, a):
     """the property statement, evaluated on what the implementation wrote and on what independent decoders make of it"""
     f = l.split(" ")
     op = f[0]
-    if not (a.startswith("ok ") or a.startswith("fin ")):
+    if not a.startswith("ok "):
         if op.startswith("jsonp.w"):
             c.oracle_fail(l, "writer did not produce a result (%s)" % a[:40], l)
         return
@@ -509,7 +581,7 @@ def oracle_writer(c, l, a):
         width = 16 if wide else 8
         if e == (1 << ebits) - 1:
             exp = b'"NaN"' if m else (b'"-Inf"' if neg else b'"+Inf"')
-            if a.startswith("fin") or out != exp:
+            if out != exp:
                 c.oracle_fail(l, "special float is not written as its documented string", l)
             g = fl.get("g", "").split(":")
             back = int(g[1], 16) if len(g) == 3 and g[0] == "ok" else None
@@ -524,8 +596,6 @@ def oracle_writer(c, l, a):
                 c.oracle_fail(l, "encoding/json.Valid rejects the special float string", l)
         else:
             hexp = "%0*x" % (width, p)
-            if not a.startswith("fin"):
-                c.oracle_fail(l, "finite float written as a string", l)
             if not JSON_FIXED.match(out.decode("latin-1")) or fl.get("valid") != "true":
                 c.oracle_fail(l, "finite float is not written as a JSON number", l)
             if fl.get("std") != hexp:
